@@ -106,6 +106,182 @@ def rand_update(r, ids_pool):
     return feats
 
 
+BASE_LINES = [feat_line("a", []), feat_line("b", ["a"]), feat_line("c", ["b"]), feat_line("d", ["c"])]
+BASE_FEATS = [("a", [], "exon", 10), ("b", ["a"], "exon", 10), ("c", ["b"], "exon", 10), ("d", ["c"], "exon", 10)]
+BACKUP_LINES = [feat_line("e", ["d"]), feat_line(None, ["a"]), feat_line("f", ["e"])]
+
+
+def jsonable_history(hist):
+    """steps as JSON lists: ["update", [[id|null, [parents], featuretype, start], ...], strategy] | ["delete", [ids]] |
+    ["addrel", parent, child, level] | ["reopen"]"""
+    return [[list(x) if isinstance(x, tuple) else ([list(f) for f in x] if i == 1 and s[0] == "update" else x)
+             for i, x in enumerate(s)] for s in hist]
+
+
+def play(ctx, name, hist, res, cmds, exp, tags):
+    """one history on a fresh file database built from BASE_LINES, step by step against the reference; the
+    correspondence commands of the steps are appended to cmds/exp/tags.  returns the number of state-changing steps"""
+    import gffutils
+    cfg0 = dbside.Cfg()
+    # a fresh file name per history: a failed update of an earlier history may leave a rollback journal next to
+    # its database file, which sqlite would apply to a new database created under the same name
+    for old in [x for x in os.listdir(ctx.scratch) if x.startswith("h") and ".db" in x]:
+        os.unlink(os.path.join(ctx.scratch, old))
+    dbfn = os.path.join(ctx.scratch, "h%s.db" % name)
+    path = dbside.write_lines(os.path.join(ctx.scratch, "h.gff3"), BASE_LINES)
+    db, rep = dbside.py_create(path, cfg0, dbfn=dbfn)
+    ref = Ref()
+    ref.update(BASE_FEATS, "error")
+    cmds.append(dbside.cmd_create(BASE_LINES, cfg0)); exp.append(rep); tags.append(("create_db", "base"))
+    changing = 0
+    alive = True
+    for si, step in enumerate(hist):
+        res.evaluations += 1
+        res.count(step[0])
+        inp = {"base": BASE_LINES, "history": [list(map(str, s)) for s in hist[: si + 1]]}
+        case = {"scenario": "history", "base": BASE_LINES, "input": jsonable_history(hist[: si + 1]), "config": cfg0.to_json()}
+        if step[0] == "update":
+            _, feats, strategy = step
+            lines = [feat_line(fid, parents, ftype, start) for fid, parents, ftype, start in feats]
+            upath = dbside.write_lines(os.path.join(ctx.scratch, "u.gff3"), lines)
+            cfg = dbside.Cfg(strategy=strategy)
+            want = ref.update(feats, strategy)
+            exc = None
+            try:
+                with warnings.catch_warnings():
+                    warnings.simplefilter("ignore")
+                    if lines:
+                        db.update(upath, make_backup=False, **cfg.update_kwargs())
+                    else:
+                        db.update(iter([]), make_backup=False, **cfg.update_kwargs())
+                got = "ok"
+            except Exception as ex:
+                got = "err " + dbside.err_name(ex)
+                inp["exception"] = exc = repr(ex)
+            cmds.append(dbside.cmd_update(lines, cfg)); exp.append(got); tags.append(("update", repr(inp)))
+            if want != "ok":
+                if got == "ok":
+                    common.fail(res, case, "update_duplicate_not_failed", "update with a duplicate key did not fail under merge_strategy=%r" % strategy,
+                                observed=got, expected="an exception", update_lines=lines)
+                alive = False
+                break
+            if got != "ok":
+                common.fail(res, case, "update_raised", "update raised (%s) although the strategy prescribes an outcome" % got,
+                            error=got, observed=exc, expected="ok", update_lines=lines)
+                alive = False
+                break
+            changing += 1 if feats else 0
+        elif step[0] == "delete":
+            ref.delete(step[1])
+            db.delete(step[1], make_backup=False)
+            cmds.append("delete " + dbside.enc_list(step[1])); exp.append("ok"); tags.append(("delete", repr(inp)))
+            changing += 1
+        elif step[0] == "addrel":
+            _, p, c, l = step
+            want = ref.add_relation(p, c, l)
+            try:
+                db.add_relation(p, c, l)
+                got = "ok"
+            except gffutils.FeatureNotFoundError:
+                got = "err FeatureNotFoundError"
+            except sqlite3.IntegrityError:
+                got = "err IntegrityError"
+                db.conn.rollback()
+            cmds.append("addrel %s %s %d" % (enc(p), enc(c), l)); exp.append(got); tags.append(("add_relation", repr(inp)))
+            if (want == "ok") != (got == "ok"):
+                common.fail(res, case, "add_relation_outcome", "add_relation outcome %s, reference %s" % (got, want),
+                            observed=got, expected=want)
+            changing += 1 if got == "ok" else 0
+        else:
+            db.conn.commit()
+            db = gffutils.FeatureDB(dbfn)
+            cmds.append("reopen"); exp.append("ok"); tags.append(("reopen", repr(inp)))
+        feats_now, rel_now = observe(db)
+        if feats_now != ref.features or rel_now != ref.rel:
+            common.fail(res, case, "state_differs_from_reference",
+                        "after the history the features/relations differ from the reference model",
+                        extra_features=sorted(set(feats_now) - set(ref.features)),
+                        missing_features=sorted(set(ref.features) - set(feats_now)),
+                        changed=[k for k in feats_now if k in ref.features and feats_now[k] != ref.features[k]],
+                        extra_relations=sorted(rel_now - ref.rel), missing_relations=sorted(ref.rel - rel_now))
+            alive = False
+            break
+        cmds.append("dump"); exp.append(dbside.dump(db)); tags.append(("tables after step", repr(inp)))
+    if alive:
+        # keys never recycled: every auto key handed out is unique (handed is a set; check the counter table)
+        db.conn.commit()
+        db2 = gffutils.FeatureDB(dbfn)
+        pa = dbside.pauto_of(db2)
+        for base, n in ref.counters.items():
+            if pa.get(base, 0) < n:
+                common.fail(res, {"scenario": "history", "base": BASE_LINES, "input": jsonable_history(hist), "config": cfg0.to_json()},
+                            "persistent_counter_behind", "the persistent counter for %r is behind the keys handed out" % base,
+                            counter_base=base, observed=pa.get(base, 0), expected=n)
+    return changing
+
+
+def check_backup(ctx, case, res):
+    """make_backup=True: the .bak file is the complete pre-operation database, also when the source of the operation
+    fails at position fail_at"""
+    import gffutils
+    from gffutils.feature import feature_from_line
+    op, fail_at, lines = case["op"], case["fail_at"], case["input"]
+    for old in [x for x in os.listdir(ctx.scratch) if x.startswith("b") and ".db" in x]:
+        os.unlink(os.path.join(ctx.scratch, old))
+    dbfn = os.path.join(ctx.scratch, "b%s_%s.db" % (fail_at, op))
+    path = dbside.write_lines(os.path.join(ctx.scratch, "b.gff3"), case["base"])
+    db, rep = dbside.py_create(path, dbside.Cfg.from_json(case["config"]), dbfn=dbfn)
+    db.conn.commit()
+    before = dbside.dump(gffutils.FeatureDB(dbfn))
+    res.evaluations += 1
+
+    def source():
+        for i, l in enumerate(lines):
+            if fail_at is not None and i == fail_at:
+                raise RuntimeError("source failed")
+            yield feature_from_line(l)
+        if fail_at == 3:
+            raise RuntimeError("source failed at the end")
+    try:
+        with warnings.catch_warnings():
+            warnings.simplefilter("ignore")
+            if op == "update":
+                db.update(source(), make_backup=True, merge_strategy="error")
+            else:
+                def ids():
+                    for i, x in enumerate(case["delete_ids"]):
+                        if fail_at is not None and i == fail_at:
+                            raise RuntimeError("source failed")
+                        yield x
+                db.delete(ids(), make_backup=True)
+        outcome = "ok"
+    except RuntimeError:
+        outcome = "failed"
+    except Exception as ex:
+        outcome = "raised %r" % ex
+    if not os.path.exists(dbfn + ".bak"):
+        common.fail(res, case, "no_bak_file", "make_backup=True left no .bak file", outcome=outcome)
+        return
+    bak = dbside.dump(gffutils.FeatureDB(dbfn + ".bak"))
+    if bak != before:
+        common.fail(res, case, "bak_not_preoperation_database", "the .bak file is not the complete pre-operation database",
+                    outcome=outcome, observed=bak, expected=before)
+    res.count("backup_%s_%s" % (op, outcome))
+
+
+JUDGED = [0]
+
+
+def judge(ctx, case):
+    res = common.Result("C10")
+    if case["scenario"] == "backup":
+        check_backup(ctx, case, res)
+    elif case["scenario"] == "history" and list(case.get("base", BASE_LINES)) == BASE_LINES:
+        JUDGED[0] += 1
+        play(ctx, "j%d" % JUDGED[0], case["input"], res, [], [], [])
+    return res
+
+
 def run(ctx):
     import gffutils
     res = common.Result("C10")
@@ -116,7 +292,6 @@ def run(ctx):
                 "failing at every position; make_backup. non-trivial = distinct history with >= 2 state-changing steps")
     cmds, exp, tags = [], [], []
     pool = ["a", "b", "c", "d", "e"]
-    base_lines = [feat_line("a", []), feat_line("b", ["a"]), feat_line("c", ["b"]), feat_line("d", ["c"])]
     alphabet = [
         ("update", [("e", ["d"], "exon", 5)], "error"),
         ("update", [(None, ["a"], "exon", 7), (None, [], "exon", 8)], "error"),
@@ -151,146 +326,17 @@ def run(ctx):
         histories = histories[:: 1]
     cfg0 = dbside.Cfg()
     for hi, hist in enumerate(histories):
-        # a fresh file name per history: a failed update of an earlier history may leave a rollback journal next to
-        # its database file, which sqlite would apply to a new database created under the same name
-        for old in [x for x in os.listdir(ctx.scratch) if x.startswith("h") and ".db" in x]:
-            os.unlink(os.path.join(ctx.scratch, old))
-        dbfn = os.path.join(ctx.scratch, "h%d.db" % hi)
-        path = dbside.write_lines(os.path.join(ctx.scratch, "h.gff3"), base_lines)
-        db, rep = dbside.py_create(path, cfg0, dbfn=dbfn)
-        ref = Ref()
-        ref.update([("a", [], "exon", 10), ("b", ["a"], "exon", 10), ("c", ["b"], "exon", 10), ("d", ["c"], "exon", 10)], "error")
-        cmds.append(dbside.cmd_create(base_lines, cfg0)); exp.append(rep); tags.append(("create_db", "base"))
-        changing = 0
-        alive = True
-        for si, step in enumerate(hist):
-            res.evaluations += 1
-            res.count(step[0])
-            inp = {"base": base_lines, "history": [list(map(str, s)) for s in hist[: si + 1]]}
-            if step[0] == "update":
-                _, feats, strategy = step
-                lines = [feat_line(fid, parents, ftype, start) for fid, parents, ftype, start in feats]
-                upath = dbside.write_lines(os.path.join(ctx.scratch, "u.gff3"), lines)
-                cfg = dbside.Cfg(strategy=strategy)
-                want = ref.update(feats, strategy)
-                try:
-                    with warnings.catch_warnings():
-                        warnings.simplefilter("ignore")
-                        if lines:
-                            db.update(upath, make_backup=False, **cfg.update_kwargs())
-                        else:
-                            db.update(iter([]), make_backup=False, **cfg.update_kwargs())
-                    got = "ok"
-                except Exception as ex:
-                    got = "err " + dbside.err_name(ex)
-                    inp["exception"] = repr(ex)
-                cmds.append(dbside.cmd_update(lines, cfg)); exp.append(got); tags.append(("update", repr(inp)))
-                if want != "ok":
-                    if got == "ok":
-                        res.oracle_failures.append(("update with a duplicate key did not fail under merge_strategy=%r" % strategy, inp))
-                    alive = False
-                    break
-                if got != "ok":
-                    res.oracle_failures.append(("update raised (%s) although the strategy prescribes an outcome" % got, inp))
-                    alive = False
-                    break
-                changing += 1 if feats else 0
-            elif step[0] == "delete":
-                ref.delete(step[1])
-                db.delete(step[1], make_backup=False)
-                cmds.append("delete " + dbside.enc_list(step[1])); exp.append("ok"); tags.append(("delete", repr(inp)))
-                changing += 1
-            elif step[0] == "addrel":
-                _, p, c, l = step
-                want = ref.add_relation(p, c, l)
-                try:
-                    db.add_relation(p, c, l)
-                    got = "ok"
-                except gffutils.FeatureNotFoundError:
-                    got = "err FeatureNotFoundError"
-                except sqlite3.IntegrityError:
-                    got = "err IntegrityError"
-                    db.conn.rollback()
-                cmds.append("addrel %s %s %d" % (enc(p), enc(c), l)); exp.append(got); tags.append(("add_relation", repr(inp)))
-                if (want == "ok") != (got == "ok"):
-                    res.oracle_failures.append(("add_relation outcome %s, reference %s" % (got, want), inp))
-                changing += 1 if got == "ok" else 0
-            else:
-                db.conn.commit()
-                db = gffutils.FeatureDB(dbfn)
-                cmds.append("reopen"); exp.append("ok"); tags.append(("reopen", repr(inp)))
-            feats_now, rel_now = observe(db)
-            if feats_now != ref.features or rel_now != ref.rel:
-                res.oracle_failures.append((
-                    "after the history the features/relations differ from the reference model",
-                    dict(inp, extra_features=sorted(set(feats_now) - set(ref.features)),
-                         missing_features=sorted(set(ref.features) - set(feats_now)),
-                         changed=[k for k in feats_now if k in ref.features and feats_now[k] != ref.features[k]],
-                         extra_relations=sorted(rel_now - ref.rel), missing_relations=sorted(ref.rel - rel_now))))
-                alive = False
-                break
-            cmds.append("dump"); exp.append(dbside.dump(db)); tags.append(("tables after step", repr(inp)))
-        if alive:
-            # keys never recycled: every auto key handed out is unique (handed is a set; check the counter table)
-            db.conn.commit()
-            db2 = gffutils.FeatureDB(dbfn)
-            pa = dbside.pauto_of(db2)
-            for base, n in ref.counters.items():
-                if pa.get(base, 0) < n:
-                    res.oracle_failures.append(("the persistent counter for %r is behind the keys handed out" % base,
-                                                {"history": [list(map(str, s)) for s in hist], "counter": pa.get(base, 0),
-                                                 "handed_out": n}))
+        changing = play(ctx, "%d" % hi, hist, res, cmds, exp, tags)
         if changing >= 2:
             res.nontriv(repr(hist))
         if len(res.samples) < 2 and len(hist) > 2:
             res.sample({"history": [list(map(str, s)) for s in hist]})
 
     # backup completeness, also when the source fails at every position ------------------------------------
-    from gffutils.feature import feature_from_line
-    lines = [feat_line("e", ["d"]), feat_line(None, ["a"]), feat_line("f", ["e"])]
     for fail_at in [None, 0, 1, 2, 3]:
         for op in ("update", "delete"):
-            for old in [x for x in os.listdir(ctx.scratch) if x.startswith("b") and ".db" in x]:
-                os.unlink(os.path.join(ctx.scratch, old))
-            dbfn = os.path.join(ctx.scratch, "b%s_%s.db" % (fail_at, op))
-            path = dbside.write_lines(os.path.join(ctx.scratch, "b.gff3"), base_lines)
-            db, rep = dbside.py_create(path, cfg0, dbfn=dbfn)
-            db.conn.commit()
-            before = dbside.dump(gffutils.FeatureDB(dbfn))
-            res.evaluations += 1
-
-            def source():
-                for i, l in enumerate(lines):
-                    if fail_at is not None and i == fail_at:
-                        raise RuntimeError("source failed")
-                    yield feature_from_line(l)
-                if fail_at == 3:
-                    raise RuntimeError("source failed at the end")
-            try:
-                with warnings.catch_warnings():
-                    warnings.simplefilter("ignore")
-                    if op == "update":
-                        db.update(source(), make_backup=True, merge_strategy="error")
-                    else:
-                        def ids():
-                            for i, x in enumerate(["b", "c", "d"]):
-                                if fail_at is not None and i == fail_at:
-                                    raise RuntimeError("source failed")
-                                yield x
-                        db.delete(ids(), make_backup=True)
-                outcome = "ok"
-            except RuntimeError:
-                outcome = "failed"
-            except Exception as ex:
-                outcome = "raised %r" % ex
-            if not os.path.exists(dbfn + ".bak"):
-                res.oracle_failures.append(("make_backup=True left no .bak file", {"op": op, "fail_at": fail_at}))
-                continue
-            bak = dbside.dump(gffutils.FeatureDB(dbfn + ".bak"))
-            if bak != before:
-                res.oracle_failures.append(("the .bak file is not the complete pre-operation database",
-                                            {"op": op, "fail_at": fail_at, "outcome": outcome}))
-            res.count("backup_%s_%s" % (op, outcome))
+            check_backup(ctx, {"scenario": "backup", "op": op, "fail_at": fail_at, "base": BASE_LINES, "input": BACKUP_LINES,
+                               "delete_ids": ["b", "c", "d"], "config": cfg0.to_json(), "no_shrink": True}, res)
     out = ctx.model(cmds)
     if out is not None:
         for c, m, e, (comp, inp) in zip(cmds, out, exp, tags):
@@ -299,10 +345,9 @@ def run(ctx):
                 res.corr_disagreements.append((comp, inp[:900], m[:600], e[:600]))
     res.assumptions = ["one merge configuration per update; ids free of tab", "a failed update's effect on the main file is "
                        "not specified by the property beyond the backup (sqlite transaction behaviour)"]
+    common.shrink_first_failure(res, lambda case: judge(ctx, case))
     return res
 
 
 def replay(ctx, payload):
-    res = common.Result("C10")
-    print("replay:", payload.get("what"), payload.get("input"))
-    return res
+    return common.replay_failure("C10", payload, lambda case: judge(ctx, case))
